@@ -672,6 +672,7 @@ class Gen:
 
     def note_defined(self, ctx, t, ty):
         k = show_term(t)
+        t = copy.deepcopy(t)       # the statement's own nodes may still be edited (wildcards)
         ctx.defined[k] = (t, ty)
         self._def_pool[k] = (t, ty)
 
@@ -786,7 +787,7 @@ class Gen:
         for t in atom_terms("if", atom):
             self.note_term(ctx, t)
         if atom[0] == "eq":
-            ctx.eqs.append((atom[1], atom[2]))
+            ctx.eqs.append(copy.deepcopy((atom[1], atom[2])))
         return Stmt("if", atom=atom)
 
     def gen_then(self, rule, ctx):
@@ -811,10 +812,10 @@ class Gen:
                 if na is not None:
                     b = na[0]
                     self.note_defined(ctx, b, ty)
-                    ctx.eqs.append((a, b))
+                    ctx.eqs.append(copy.deepcopy((a, b)))
                     return Stmt("then", atom=("eq", b, a) if rng.chance(1, 2) else ("eq", a, b))
             b = self.then_term(ctx, ty)
-            ctx.eqs.append((a, b))
+            ctx.eqs.append(copy.deepcopy((a, b)))
             return Stmt("then", atom=("eq", a, b))
         na = self.new_app(ctx, plain_ok=False)
         if na is None:
@@ -826,10 +827,10 @@ class Gen:
         x = self.new_var(rule, ctx, ty)
         self.note_defined(ctx, t, ty)
         self.note_defined(ctx, V(x, ty), ty)
-        ctx.eqs.append((V(x, ty), t))
+        ctx.eqs.append(copy.deepcopy((V(x, ty), t)))
         return Stmt("then", atom=("def", V(x, ty), t))
 
-    def close_block(self, rule, ctx, body, pattern_vars=()):
+    def close_block(self, rule, ctx, body, pattern_vars=(), pat_args=None):
         """Give every variable introduced at this block's level a second occurrence; retire the names."""
         intro = rule["intro"].pop()
         for v in intro:
@@ -843,7 +844,20 @@ class Gen:
                 n = sum(1 for s, _ in walk_stmts(body[idx[0]:]) for t in stmt_terms(s)
                         for x in term_vars(t) if x == v) if idx else 0
             if n < 2:
-                body.append(Stmt("if", atom=("type", V(v, ctx.scope[v]), ctx.scope[v])))
+                # a variable that is used once becomes a wildcard where the language allows one (argument
+                # positions of if-statements and patterns), or gets a second occurrence `if v: T;`
+                slots = []
+                if v in pattern_vars:
+                    slots = [(pat_args, i) for i, a in enumerate(pat_args or []) if a.k == "var" and a.name == v]
+                else:
+                    for s, _ in walk_stmts(body[idx[0]:] if idx else []):
+                        if s.k == "if" or s.k == "match":
+                            slots += [(lst, i) for (lst, i) in parent_slots(s) if lst[i].k == "var" and lst[i].name == v]
+                if slots and self.rng.chance(2, 3):
+                    lst, i = slots[0]
+                    lst[i] = W(lst[i].ty)
+                else:
+                    body.append(Stmt("if", atom=("type", V(v, ctx.scope[v]), ctx.scope[v])))
             rule["retired"].append(v)
 
     def gen_block(self, rule, ctx, depth, nstmts):
@@ -859,11 +873,11 @@ class Gen:
             before_last = dict(ctx.defined)
             r = rng.below(20)
             s = None
-            if r <= 8 or not ctx.defined:
+            if r <= 6 or not ctx.defined:
                 s = self.gen_if(rule, ctx)
-            elif r <= 15:
+            elif r <= 13:
                 s = self.gen_then(rule, ctx)
-            elif r <= 17 and depth > 0 and rule["forks"] > 0:
+            elif r <= 16 and depth > 0 and rule["forks"] > 0:
                 rule["forks"] -= 1
                 s = self.gen_branch(rule, ctx, depth - 1)
             elif depth > 0 and self.sig.enums and rule["forks"] > 0:
@@ -926,9 +940,9 @@ class Gen:
             for x in term_vars(pat):
                 pvars[x] = pvars.get(x, 0) + 1
             self.note_term(c, pat)
-            c.eqs.append((d, pat))
+            c.eqs.append(copy.deepcopy((d, pat)))
             body, before_last = self.gen_block(rule, c, depth, rng.below(1 + self.size))
-            self.close_block(rule, c, body, pvars)
+            self.close_block(rule, c, body, pvars, pat.args)
             cases.append(Case(pat, body))
             ends.append(self.end_defined(c, body, before_last, outer))
         if ends:
@@ -1674,6 +1688,25 @@ func fub() -> Tyb;
                               "reports 'symbol declared multiple times' at line 2 (`type Tyb;`, 'previously declared' "
                               "at `type Tyc;`): the two result types of the one semantic function are identified "
                               "and, through type_name, so are the identifiers Tyb and Tyc"),
+    "match-discriminee-scope-leak": ('''type A;
+type B;
+enum E { Ca(), Cb(A) }
+pred q(B);
+rule {
+    branch {
+        match z { Ca() => {} Cb(_) => {} }
+    } along {
+        if q(z);
+        if q(z);
+    }
+}
+''', "ill-formed: the variable z of the first block (line 7) occurs only once; the z of the second block is "
+     "another variable (it even has another type)",
+                                     "accepts: the term matched on is also the left-hand side of the desugared "
+                                     "`if z = pattern` statements, which identifies its entry and exit scope; a "
+                                     "variable introduced by it in the first statement of a branch block is "
+                                     "therefore in scope in the sibling blocks, whose z counts as a further "
+                                     "occurrence of the same name"),
 }
 
 
